@@ -1014,7 +1014,7 @@ func (c *StructConverter) To(obj Object) (interface{}, error) {
 						if err != nil {
 							return nil, err
 						}
-						f.Set(valueOrZero(attrValue, f.Type()))
+						setField(f, attrValue)
 					}
 				}
 			}
